@@ -206,6 +206,40 @@ def check_projection(ctx, meshname, mesh, grid, quick):
             ctx.case((meshname, "proj", kind, tag), sub="projection")
             ctx.check_close("projection/%s/%s" % (kind, tag), {"sub": "projection", "mesh": meshname, "kind": kind, "flags": tag}, coeffs, want, 1e-10,
                             "projection-of-member")
+        # a callable that reads the normal it is given: on a space with swapped normals that is the flipped normal of the space
+        if not cplx and len(set(d.tolist())) > 1:
+            from bempp_cl.api.assembly.grid_function import callable as wrap
+
+            a = np.array([0.4, -0.7, 0.55])
+            if vec:
+                if par:
+                    def fn(x, n, dom, res, prm):
+                        res[0, :] = prm[0] * n[0] + a[1] * n[1] + a[2] * n[2]
+                else:
+                    def fn(x, n, dom, res):
+                        res[0, :] = a[0] * n[0] + a[1] * n[1] + a[2] * n[2]
+            else:
+                if par:
+                    def fn(x, n, dom, res, prm):
+                        res[0] = prm[0] * n[0] + a[1] * n[1] + a[2] * n[2]
+                else:
+                    def fn(x, n, dom, res):
+                        res[0] = a[0] * n[0] + a[1] * n[1] + a[2] * n[2]
+            doms = sorted(set(d.tolist()))
+            normals = R.geometry(v, e)["normals"]
+            for sw in ((), (doms[-1],)):
+                case = {"sub": "projection", "mesh": meshname, "kind": "DP0", "flags": tag, "callable": "a.n", "swapped": list(sw)}
+                try:
+                    space = SP.make_space(grid, {"kind": "DP0", "swapped": sw})
+                    gf = bem.GridFunction(space, fun=wrap(complex=False, jit=jit, parameterized=par, vectorized=vec)(fn),
+                                          function_parameters=np.array([a[0]]) if par else None)
+                    coeffs = np.asarray(gf.coefficients)
+                except Exception as exc:  # noqa: BLE001
+                    ctx.violation("projection/%s/exception:%s" % (tag, type(exc).__name__), case, repr(exc))
+                    continue
+                flip = np.array([-1.0 if int(dd) in sw else 1.0 for dd in d])
+                ctx.case((meshname, "proj-normal", tag, sw), sub="projection")
+                ctx.check_close("projection/normal-dependent/%s" % tag, case, coeffs, flip * (normals @ a), 1e-10, "projection-of-normal-dependent-data")
         if planar:
             # constant tangential field on the planar screen lies in RWG (with boundary dofs) and, rotated, in SNC
             for kind in ("RWG", "SNC"):
